@@ -123,7 +123,7 @@ def run_container(ctx, case, data, tmp, container, spelling, max_read, rng):
             reg = reg[:n]
         gen = reg.split(**kw)
     elif container in ("wav", "wav_lazy", "wav_path_obj", "wave_obj"):
-        path = os.path.join(tmp, "c.wav")
+        path = os.path.join(tmp, "c_$TAKE_%TAKE%.wav" if (case["pcm_seed"] >> 30) & 1 else "c.wav")  # TAKE is a defined variable: still just characters
         with wave.open(path, "wb") as fp:
             fp.setframerate(rate)
             fp.setsampwidth(width)
@@ -136,7 +136,7 @@ def run_container(ctx, case, data, tmp, container, spelling, max_read, rng):
         else:
             gen = auditok.split(path, large_file=(container == "wav_lazy"), **kw)
     elif container in ("raw", "raw_lazy", "raw_fmt_noext", "raw_obj"):
-        name = "c_noext" if container == "raw_fmt_noext" else "c.raw"
+        name = "c_noext" if container == "raw_fmt_noext" else ("c_${TAKE}.raw" if (case["pcm_seed"] >> 30) & 1 else "c.raw")
         path = os.path.join(tmp, name)
         with open(path, "wb") as fp:
             fp.write(data)
